@@ -46,7 +46,7 @@ Proof. vm_compute. auto. Qed.
 
 (* BufferStore / FleetStore, including the internal events that make items available *)
 Theorem C04_no_pending_while_servable_bound :
-  forall k m c ops, k <> StoreB.KBelt -> NoDup (StoreBInv.put_ids ops) ->
+  forall k m c ops, StoreB.is_belt k = false -> NoDup (StoreBInv.put_ids ops) ->
     let s := StoreB.run (StoreB.init k m c) ops in
     (StoreB.putq s <> [] -> StoreB.admit_put s = false) /\
     (StoreB.getq s <> [] -> StoreB.admit_get s = false).
